@@ -107,8 +107,16 @@ PROPS = {
     },
     "C03": {
         "lean_modules": ["Props.Facts03"],
-        "groups": [{"name": "C03", "quick": 1600, "thorough": 40000, "workers": 8}],
-        "rule": "status / Content-Type / Location lines and header blocks from a grammar with mutations (case, blanks, CR, missing newline, odd versions and codes); worlds of 1..4 documents and 0..25 redirects over five loopback TLS hosts (relative and cross-host Locations, non-https hops, missing/unparsable Location, self loops and cycles, chains around the budget of 20, odd status lines, content types, bodies) x sequences of 1..8 fetches (cache warm-up); "
+        "groups": [{"name": "C03", "quick": 1200, "thorough": 40000, "workers": 8},
+                   # the same worlds and sequences in processes whose cache holds 1, 2, 3 and 5 entries: eviction and re-fetch
+                   {"name": "C03", "quick": 96, "thorough": 3000, "workers": 2, "config": "[network]\ncache_size = 1\n"},
+                   {"name": "C03", "quick": 96, "thorough": 3000, "workers": 2, "config": "[network]\ncache_size = 2\n"},
+                   {"name": "C03", "quick": 96, "thorough": 3000, "workers": 2, "config": "[network]\ncache_size = 3\n"},
+                   {"name": "C03", "quick": 96, "thorough": 3000, "workers": 2, "config": "[network]\ncache_size = 5\n"}],
+        "rule": "status / Content-Type / Location lines and header blocks from a grammar with mutations (case, blanks, CR, missing newline, odd versions and codes); worlds of 1..4 documents and 0..22 redirects over five loopback TLS hosts plus a host reached by name, one by IPv6 literal and one on the default port "
+                "(relative ('x', './x', '../d/x', '//host/x') and cross-host Locations, Locations with fragments, non-https hops, missing/unparsable Location, two Location lines, a Location on a 2xx/4xx response, self loops and cycles, every 3xx code from 300 to 310 and 399, status codes next to 200-203, "
+                "odd status lines, content types, bodies incl. nesting beyond the decoder's limit, two values, duplicate keys, a BOM) under redirect budgets 0, 1, 2, 3, 5 and 20 with chains of budget-1, budget, budget+1 and budget+2 hops fetched cold, with the final document cached, with the last redirect cached and with every link cached; "
+                "x sequences of 1..17 fetches drawn with repeats (cache warm-up, eviction under cache_size 1, 2, 3, 5 and re-fetch; the same document under other spellings of its URL: fragment, upper-case scheme); "
                 "compared: result class, source, stamp, and the exact request sequence the simulator saw; non-trivial = at least two connections were opened; distinct by op content",
         "trusted": ["crypto/tls, net (the simulator is reached through the unmodified jtp.Get; CA via SSL_CERT_FILE)",
                     "url.Parse / ResolveReference and json.Decoder as oracle tables computed by the real libraries per world (model parameters `Env.resolve`, `Env.decode`)",
@@ -121,8 +129,11 @@ PROPS = {
         "groups": [{"name": "C04", "quick": 1200, "thorough": 30000, "workers": 8},
                    # redirect worlds (non-https hops, relative and cross-host Locations): what goes on the wire there
                    {"name": "C03", "quick": 400, "thorough": 10000, "workers": 8}],
-        "rule": "fetches of URLs with hostile paths and queries (raw and encoded CR/LF, spaces, %00, fragments), userinfo, upper-case scheme, non-https schemes, scheme-less references, redirects to plaintext and to CR/LF-carrying Locations, a plaintext canary listener; webfinger lookups with hostile account and domain parts (CR/LF, spaces, '#', '?', userinfo, unresolvable names); "
-                "compared: result and the raw bytes of every connection; non-trivial = at least one connection reached the simulator; distinct by op content",
+        "rule": "fetches of URLs with hostile paths and queries (raw and encoded CR/LF and LF alone, a whole second request encoded in path or query, spaces, %00, fragments, escaped delimiters %2F %3F %23 %25, broken escapes, non-ASCII, brackets and braces, dot segments, request targets of 1.5 kB to 280 kB), "
+                "userinfo of every shape (also carrying encoded CR/LF or a header name), upper-case scheme, non-https and look-alike schemes, scheme-less references, authorities spelled other ways (a name in other letter case or with a trailing dot, IPv6 literals in two spellings, with a zone, IPv4-mapped; the default port absent, written, empty, with a leading zero; a wrong port; IDN and percent-encoded names), "
+                "redirects to plaintext (absolute, scheme-relative, upper-case) and to Locations carrying CR/LF, userinfo or a tab, a plaintext canary listener; webfinger lookups with hostile account and domain parts (CR, LF, CR/LF raw and encoded, tabs, NUL, spaces, '#', '?', userinfo, unresolvable names, 4.8 kB accounts, the name / IPv6 / default-port hosts); "
+                "the simulator keeps reading for 12 ms after the blank line of every request, so bytes sent after the head are part of the compared record; "
+                "compared: result, the listener each connection arrived at and the raw bytes of every connection; non-trivial = at least one connection reached the simulator; distinct by op content",
         "trusted": ["crypto/tls, net, DNS (a TLS dial succeeds only for a syntactically valid host name or IP literal)",
                     "url.Parse rejects ASCII control bytes, so RequestURI()/Host of a parsed URL are CR/LF-free (evaluated on every generated URL through the request comparison)",
                     "url.Values.Encode as an oracle for the webfinger query"],
@@ -132,13 +143,21 @@ PROPS = {
     "C05": {
         "lean_modules": ["Props.Facts04"],
         "groups": [{"name": "C05", "quick": 160, "thorough": 6000, "workers": 16, "config": "[network]\ntimeout_seconds = 1\n"},
+                   # the same faults under another timeout: the bounds are stated in the configured value, and a
+                   # response that needs 1.0..1.4 s is a document there
+                   {"name": "C05", "quick": 48, "thorough": 1600, "workers": 16, "config": "[network]\ntimeout_seconds = 3\n"},
+                   # faults on the routes the pub layer fetches on its own (authors, parents, collection pages)
+                   {"name": "C05p", "quick": 240, "thorough": 8000, "workers": 8, "config": "[network]\ntimeout_seconds = 1\n"},
                    # whole items over worlds with unreachable and failing secondary fetches (replies, authors): an error item, never a crash
                    {"name": "C07", "quick": 96, "thorough": 2000, "workers": 16},
-                   {"name": "C05x", "quick": 0, "thorough": 400, "workers": 1, "config": "[network]\ntimeout_seconds = 1\n"}],
+                   {"name": "C05x", "quick": 0, "thorough": 600, "workers": 1, "config": "[network]\ntimeout_seconds = 1\n"}],
         "replay_config": "[network]\ntimeout_seconds = 1\n",
         "level": "fault_enumeration",
-        "rule": "a document behind 0..2 redirect hops over the TLS simulator, one hop carrying a fault: response cut at a random byte or at a structural boundary (status line, CRLF, blank line, last byte) followed by EOF, TCP reset or silence; cuts placed relative to the end of the Location value as served (one character short of it, where a decoy document lives; exactly at its end; after the CR); total silence after the handshake; 100 ms/byte trickle from the first byte; headers at once and the rest dripping every 250 ms (slowtail); TCP accept without TLS handshake; timeout 1 s; "
-                "compared: result class with the model on the bytes the client can have received, and wall-clock <= (connections+1)*2 s + 1.5 s; non-trivial = at least two connections; distinct by op content",
+        "rule": "a document behind 0..3 redirect hops over the TLS simulator, one hop carrying a fault: response cut at a random byte or at a structural boundary (status line, CRLF, blank line, just before the closing brace, last byte) followed by EOF, TCP reset or silence; cuts placed relative to the end of the Location value as served (one character short of it, where a decoy document lives; exactly at its end; after the CR); total silence after the handshake; trickle from the first byte (timeout/10 per byte); headers at once and the rest dripping every timeout/4 (slowtail); "
+                "a response that arrives in pieces over 35-45 % of the timeout (a document); a chain ending at a closed port; host faults: TCP accept without TLS handshake, a handshake that stops after the first bytes of the ServerHello, a plaintext answer instead of it, close or reset right after accept; "
+                "x sequences: the faulted fetch alone, twice, again after every fault has been taken away ('@heal'), mixed with fetches of inner links of the chain; 3..9 fetches of disjoint chains at once, most of them against stalled, cut or dripping servers; responses of 70 kB..8 MB in the body, in one header line, in the reason phrase, in a media type, in blanks before or after the document, cut near the end, and a server flooding 1..24 MB of one endless line; "
+                "process timeouts 1 s and 3 s; group C05p: the multi-host object worlds of C02 with 1..3 routes cut (anywhere, at the header/body boundary, one or two bytes before the end), stalled or dripping, walked through pub.New, Children and Parents; "
+                "compared: result class with the model on the bytes the client can have received, and wall-clock <= (connections+1)*2*timeout + 1.5 s per fetch; non-trivial = at least two connections; distinct by op content",
         "trusted": ["net.Conn honours SetDeadline; json.Decoder succeeds only on a complete top-level value (validated by the cut-point enumeration)",
                     "crypto/tls, the Go scheduler and wall-clock time (observed, not proved)"],
         "assumptions": ["timeout_seconds > 0 (0 means no timeout, as for net.Dialer)"],
